@@ -1,0 +1,20 @@
+//go:build verif
+
+package node
+
+// Contracts for the deductive verifier in /verif (govc). Comments only; build tag "verif".
+
+// C19: contract on the declaration of the module's RPC API. Every method carries one of the four
+// permission levels and is at least as restricted as the policy below, which is written from the
+// property text (identity (Info), reconfiguration (LogLevelSet) and credentials (Auth*) need admin). The table is closed: a method without a policy entry is an undischarged
+// obligation.
+//@ permtable API
+//@   property C19
+//@   closed
+//@   require Info admin
+//@   require Ready public
+//@   require LogLevelSet admin
+//@   require AuthVerify admin
+//@   require AuthNew admin
+//@   require AuthNewWithExpiry admin
+//@ end
